@@ -1014,14 +1014,28 @@ func (m *Manager) ChangePassphrase(ns walletdb.ReadWriteBucket, oldPassphrase,
 			return maybeConvertDbError(err)
 		}
 
-		// Now that the db has been successfully updated, clear the old
-		// key and set the new one.
-		copy(m.cryptoKeyPrivEncrypted, encPriv)
-		copy(m.cryptoKeyScriptEncrypted, encScript)
-		m.masterKeyPriv.Zero() // Clear the old key.
-		m.masterKeyPriv = newMasterKey
-		m.privPassphraseSalt = passphraseSalt
-		m.hashedPrivPassphrase = hashedPassphrase
+		// The in-memory state is only switched over once the database
+		// transaction has been committed: the caller may still roll it
+		// back (e.g. when a later step of the same transaction fails),
+		// in which case the old passphrase remains the valid one.
+		ns.Tx().OnCommit(func() {
+			m.mtx.Lock()
+			defer m.mtx.Unlock()
+
+			// The manager may have been locked in the meantime, in
+			// which case no clear text key material may be kept.
+			if m.IsLocked() {
+				newMasterKey.Zero()
+				zero.Bytea64(&hashedPassphrase)
+			}
+
+			copy(m.cryptoKeyPrivEncrypted, encPriv)
+			copy(m.cryptoKeyScriptEncrypted, encScript)
+			m.masterKeyPriv.Zero() // Clear the old key.
+			m.masterKeyPriv = newMasterKey
+			m.privPassphraseSalt = passphraseSalt
+			m.hashedPrivPassphrase = hashedPassphrase
+		})
 	} else {
 		// Re-encrypt the crypto public key using the new master public
 		// key.
@@ -1043,10 +1057,15 @@ func (m *Manager) ChangePassphrase(ns walletdb.ReadWriteBucket, oldPassphrase,
 			return maybeConvertDbError(err)
 		}
 
-		// Now that the db has been successfully updated, clear the old
-		// key and set the new one.
-		m.masterKeyPub.Zero()
-		m.masterKeyPub = newMasterKey
+		// As above, only switch over to the new key once the database
+		// transaction has been committed.
+		ns.Tx().OnCommit(func() {
+			m.mtx.Lock()
+			defer m.mtx.Unlock()
+
+			m.masterKeyPub.Zero()
+			m.masterKeyPub = newMasterKey
+		})
 	}
 
 	return nil
